@@ -552,6 +552,10 @@ fn cb_wiring(with_fallback: bool) {
     script.never = false;
     script.immediate = true;
     let cb = CircuitBreaker::new(Inner::new(script), Arc::new(wiring_cfg(DefaultClassifier)));
+    // the published state is whatever earlier calls left there (e.g. still Open when the wait has
+    // elapsed and this call is the half-open trial): readiness handling must not depend on it
+    let published = if kani::any() { CircuitState::Open } else if kani::any() { CircuitState::HalfOpen } else { CircuitState::Closed };
+    cb.state_atomic.store(published as u8, std::sync::atomic::Ordering::Release);
     let req: u32 = kani::any();
     let mut out = None;
     if with_fallback {
